@@ -3,7 +3,11 @@
 package c06
 
 import (
+	"bytes"
 	"crypto/elliptic"
+	stdhpke "crypto/hpke"
+	"crypto/mlkem"
+	"crypto/sha3"
 	"encoding/hex"
 	"fmt"
 	"math/big"
@@ -49,8 +53,8 @@ func useDecrypt(d tink.HybridDecrypt, cts ...[]byte) error {
 		if err == nil {
 			return nil
 		}
-		if len(pt) != 0 {
-			return nil
+		if len(pt) != 0 { // an error was returned; bytes next to it are outside the C06 text: counted
+			evid.Add("observed_not_asserted/nonempty_plaintext_on_error", 1)
 		}
 		last = err
 	}
@@ -99,6 +103,113 @@ func hpkeFromKeyBytes(opts hpke.ParametersOpts, id uint32, sk, pk []byte) (strin
 	return "", nil
 }
 
+// lowOrderPublic drives the HPKE constructors and Encrypt, through the key route and the handle route,
+// with a recipient public key whose X25519 part is a point of small order (no private key belongs
+// to it). Neither the C06 text nor the documentation of hybrid/hpke, hybrid/internal/hpke or
+// subtle.ComputeSharedSecretX25519 says what happens to such a key (RFC 9180 7.1.4 has senders
+// refuse; the refusal in the unchanged tree comes out of x/crypto's X25519), so the oracle is:
+// a refusal at any stage is fine; a ciphertext that Encrypt hands out is decided by the independent
+// RFC 9180 computation for the same input - X25519 maps every small-order point to the all-zero
+// value for every (clamped) scalar, so the ciphertext must be prefix || enc || body with body
+// opening to the plaintext under KeySchedule(shared secret over dh = 0^32, info), sequence number 0.
+// xwingSK is the X-Wing seed whose ML-KEM half the public key still carries (nil for DHKEM X25519).
+// A ciphertext that this computation does not explain is reported; an explained one is counted.
+func lowOrderPublic(rt *rapid.T, detail string, opts hpke.ParametersOpts, suite hpkeref.Suite, variant string, id uint32, pk, xwingSK []byte, acceptedAndExplained *bool) (string, error) {
+	pt, info := []byte("plaintext"), []byte("info")
+	params, err := hpke.NewParameters(opts)
+	if err != nil {
+		return "NewParameters", err
+	}
+	pub, err := hpke.NewPublicKey(pk, id, params)
+	if err != nil {
+		return "NewPublicKey", err
+	}
+	var cts [][]byte
+	stage, refusal := "", error(nil)
+	refuse := func(s string, err error) {
+		if refusal == nil {
+			stage, refusal = s, err
+		}
+	}
+	if e, err := hpke.NewHybridEncrypt(pub, internalapi.Token{}); err != nil {
+		refuse("NewHybridEncrypt", err)
+	} else if ct, err := e.Encrypt(pt, info); err != nil {
+		refuse("Encrypt", err)
+	} else {
+		cts = append(cts, ct)
+	}
+	if h, err := tk.HandleFromKey(pub); err != nil {
+		refuse("keyset.Handle", err)
+	} else if e, err := hybrid.NewHybridEncrypt(h); err != nil {
+		refuse("hybrid.NewHybridEncrypt", err)
+	} else if ct, err := e.Encrypt(pt, info); err != nil {
+		refuse("hybrid.Encrypt", err)
+	} else {
+		cts = append(cts, ct)
+	}
+	if len(cts) == 0 {
+		evid.Add("low_order_public/refused", 1)
+		return stage, refusal
+	}
+	// what the independent implementations do with the same public key (not asserted)
+	if k, err := stdhpke.NewKEM(suite.KEM); err == nil {
+		kdf, _ := stdhpke.NewKDF(suite.KDF)
+		ae, _ := stdhpke.NewAEAD(suite.AEAD)
+		if spub, err := k.NewPublicKey(pk); err != nil {
+			evid.Add("observed_not_asserted/low_order_public_accepted_by_tink/crypto_hpke_refuses_key", 1)
+		} else if _, err := stdhpke.Seal(spub, kdf, ae, info, pt); err != nil {
+			evid.Add("observed_not_asserted/low_order_public_accepted_by_tink/crypto_hpke_refuses_seal", 1)
+		} else {
+			evid.Add("observed_not_asserted/low_order_public_accepted_by_tink/crypto_hpke_seals", 1)
+		}
+	}
+	prefix := tk.Prefix(variant, id)
+	ki, _ := hpkeref.Info(suite.KEM)
+	for _, ct := range cts {
+		fail := func(why string) {
+			rt.Fatalf("out-of-domain %s, suite %v variant=%s id=%#x: Encrypt(%q, %q) was not refused and returned %s, which the RFC 9180 computation for this public key (all-zero X25519 value) does not explain: %s", detail, suite, variant, id, pt, info, fullHex(ct), why)
+		}
+		if !bytes.HasPrefix(ct, prefix) || len(ct) != len(prefix)+ki.Nenc+len(pt)+16 {
+			fail(fmt.Sprintf("prefix %x || enc (%d bytes) || payload (%d bytes) expected", prefix, ki.Nenc, len(pt)+16))
+		}
+		enc, body := ct[len(prefix):len(prefix)+ki.Nenc], ct[len(prefix)+ki.Nenc:]
+		var ss []byte
+		if xwingSK == nil {
+			if ss, err = hpkeref.DHKEMSharedSecret(suite.KEM, make([]byte, 32), enc, pk); err != nil {
+				rt.Fatalf("reference shared secret: %v", err)
+			}
+		} else {
+			sh := sha3.NewSHAKE256()
+			sh.Write(xwingSK)
+			expanded := make([]byte, 96)
+			sh.Read(expanded)
+			dk, err := mlkem.NewDecapsulationKey768(expanded[:64])
+			if err != nil {
+				rt.Fatalf("reference ML-KEM key: %v", err)
+			}
+			ssM, err := dk.Decapsulate(enc[:mlkem.CiphertextSize768])
+			if err != nil {
+				fail(fmt.Sprintf("ML-KEM decapsulation: %v", err))
+			}
+			ctX := enc[mlkem.CiphertextSize768:]
+			ss = hpkeref.XWingCombiner(ssM, make([]byte, 32), ctX, pk[mlkem.EncapsulationKeySize768:])
+		}
+		ctx, err := hpkeref.KeySchedule(suite, ss, info)
+		if err != nil {
+			rt.Fatalf("reference key schedule: %v", err)
+		}
+		if got, err := ctx.OpenSeq(0, nil, body); err != nil || !bytes.Equal(got, pt) {
+			fail(fmt.Sprintf("the payload opens to %s, %v", fullHex(got), err))
+		}
+	}
+	evid.Add("observed_not_asserted/low_order_public_accepted_by_tink/ciphertexts_explained_by_reference", int64(len(cts)))
+	if refusal != nil {
+		evid.Add("observed_not_asserted/low_order_public_accepted_by_tink/one_route_refused", 1)
+	}
+	*acceptedAndExplained = true
+	return "accepted", nil
+}
+
 func validHPKEPrivate(t *rapid.T, k kemSpec) []byte { return drawHPKEPrivate(t, "valid_private", k) }
 
 func TestHybridOutOfDomain(t *testing.T) {
@@ -112,7 +223,7 @@ func TestHybridOutOfDomain(t *testing.T) {
 	}
 	rapid.Check(t, func(rt *rapid.T) {
 		detrand.Seed(rapid.Uint64().Draw(rt, "entropy"))
-		kind := rapid.SampledFrom(kinds).Draw(rt, "kind")
+		kind := gen.Pick(rt, "kind", kinds) // equal weights: SampledFrom gave the first two kinds 11 % each, late ones 1-3 %
 		k := rapid.SampledFrom(kemSpecs).Draw(rt, "kem")
 		d := rapid.SampledFrom(kdfSpecs).Draw(rt, "kdf")
 		a := rapid.SampledFrom(aeadSpecs).Draw(rt, "aead")
@@ -135,6 +246,8 @@ func TestHybridOutOfDomain(t *testing.T) {
 		}
 		detail := ""
 		var run pipeline
+		// set by the small-order kinds when Encrypt returned ciphertexts and the reference explains them
+		acceptedAndExplained := false
 		switch kind {
 		case "hpke-unknown-kem":
 			opts.KEMID = hpke.KEMID(outside("kemid", 8, 70000))
@@ -234,19 +347,26 @@ func TestHybridOutOfDomain(t *testing.T) {
 			if rapid.Bool().Draw(rt, "break_mlkem_part") {
 				pk[0], pk[1] = 0xff, pk[1]|0x0f
 				detail = "X-Wing public key with an ML-KEM coefficient >= q"
+				run = func() (string, error) { return hpkeFromKeyBytes(opts, id, nil, pk) }
 			} else {
-				low := rapid.SampledFrom(hpkeref.LowOrderX25519).Draw(rt, "low")
+				low := gen.Pick(rt, "low", hpkeref.LowOrderX25519)
 				b, _ := hex.DecodeString(low)
 				copy(pk[1184:], b)
-				detail = "X-Wing public key with the small-order X25519 part " + low
+				detail = fmt.Sprintf("X-Wing public key of private %x with the small-order X25519 part %s", sk, low)
+				suite := hpkeref.Suite{KEM: hpkeref.KEMXWing, KDF: d.ref, AEAD: a.ref}
+				run = func() (string, error) {
+					return lowOrderPublic(rt, detail, opts, suite, variant, id, pk, sk, &acceptedAndExplained)
+				}
 			}
-			run = func() (string, error) { return hpkeFromKeyBytes(opts, id, nil, pk) }
 		case "hpke-x25519-public-low-order":
 			opts.KEMID = hpke.DHKEM_X25519_HKDF_SHA256
-			low := rapid.SampledFrom(hpkeref.LowOrderX25519).Draw(rt, "low")
+			low := gen.Pick(rt, "low", hpkeref.LowOrderX25519)
 			pk, _ := hex.DecodeString(low)
 			detail = "X25519 public key " + low
-			run = func() (string, error) { return hpkeFromKeyBytes(opts, id, nil, pk) }
+			suite := hpkeref.Suite{KEM: hpkeref.KEMX25519, KDF: d.ref, AEAD: a.ref}
+			run = func() (string, error) {
+				return lowOrderPublic(rt, detail, opts, suite, variant, id, pk, nil, &acceptedAndExplained)
+			}
 		case "hpke-private-public-mismatch":
 			sk := validHPKEPrivate(rt, k)
 			pk, _ := hpkeref.PublicFromPrivate(k.ref, sk)
@@ -276,11 +396,15 @@ func TestHybridOutOfDomain(t *testing.T) {
 			detail, run = eciesOutOfDomain(rt, kind, variant, id)
 		}
 		stage, err := run()
-		if err == nil {
+		if err == nil && !acceptedAndExplained {
 			rt.Fatalf("out-of-domain %s (%s): every constructor and the operation succeeded", kind, detail)
 		}
+		errText := "accepted; the ciphertext is the one RFC 9180 defines over the all-zero DH value"
+		if err != nil {
+			errText = err.Error()
+		}
 		evid.Case("outofdomain/"+kind+"@"+stage, true, evid.NewH().S(kind).S(detail).Sum(), func() any {
-			return map[string]any{"kind": kind, "detail": detail, "refused_at": stage, "error": err.Error()}
+			return map[string]any{"kind": kind, "detail": detail, "refused_at": stage, "error": errText}
 		})
 	})
 }
